@@ -251,6 +251,32 @@ Expire(id) ==
   /\ cst' = [k \in Carriers |-> IF cst[k] = "att" /\ sid[k] = id THEN "closed" ELSE cst[k]]
   /\ UNCHANGED <<plan, cli, sid, up, recvQ, kcpVars, sets, flagVars>>
 
+(* A gap: for a while NO carrier of the session is attached.  Its length
+   classes, each with the assumption it probes:
+     "short"            well below every timer: nothing may happen at all;
+     "beyondKeepalive"  longer than the session layer's DEFAULT keep-alive
+                        timeout (smux: 30 s) but inside the retention.  The
+                        design assumes that the server's session layer does not
+                        give a session up within the retention (acceptStreams
+                        configures KeepAliveTimeout = 10 min): sess[id] and
+                        opened[id] persist (SessionPersists), so the stream
+                        continues on the next carrier as the SAME accepted
+                        connection;
+     "beyondRetention"  longer than clientMapTimeout (1 min): the outgoing
+                        queue of the ClientID expires and its packets are lost
+                        (the reliable layer resends them); the session itself
+                        still persists.
+   The retention clock itself is C17's; here a gap is an environment event
+   (budgeted by MaxExpire together with Expire). *)
+GapClasses == {"short", "beyondKeepalive", "beyondRetention"}
+Attached(id) == \E k \in Carriers : cst[k] \in {"id", "att"} /\ sid[k] = id
+Gap(id, cls) ==
+  /\ expired < MaxExpire /\ cls \in GapClasses
+  /\ sess[id] # "none" /\ ~Attached(id)
+  /\ expired' = expired + 1
+  /\ outQ' = [outQ EXCEPT ![id] = IF cls = "beyondRetention" THEN <<>> ELSE @]
+  /\ UNCHANGED <<plan, cli, cst, sid, up, recvQ, kcpVars, sets, flagVars>>
+
 -----------------------------------------------------------------------------
 (* Server: the KCP listener on top of the QueuePacketConn. *)
 
@@ -328,6 +354,7 @@ S_Open(k)         == Quiet /\ CarrierOpen(k, Plan[k])
 S_UpFrame(k, pkt) == Quiet /\ UpFrame(k, pkt)
 S_Cut(k, c)       == Quiet /\ CarrierCut(k, c)
 S_Expire(id)      == Quiet /\ Expire(id)
+S_Gap(id, cls)    == Quiet /\ Gap(id, cls)
 (* The design: every parameter takes the intended value. *)
 S_SetAddr(k)      == Quiet /\ SetAddr(k, Sanit(ip(k)))
 S_QueueIncoming(k) == Quiet /\ QueueIncoming(k, sid[k])
@@ -344,6 +371,7 @@ EnvNext ==
   \/ \E k \in Carriers, pkt \in Packet : S_UpFrame(k, pkt)
   \/ \E k \in Carriers, c \in CutClasses : S_Cut(k, c)
   \/ \E id \in Ids : S_Expire(id)
+  \/ \E id \in Ids, cls \in GapClasses : S_Gap(id, cls)
 SrvNext ==
   \/ \E k \in Carriers : S_SetAddr(k) \/ S_QueueIncoming(k) \/ S_DownFrame(k) \/ S_Detach(k)
   \/ S_KcpInput
@@ -396,6 +424,12 @@ NoTokenNoConn ==
         /\ \A j \in DOMAIN recvQ : recvQ[j].src # k
   /\ \A j \in DOMAIN accepted : Presented(accepted[j].id)
   /\ \A id \in Ids : sess[id] # "none" => Presented(id)
+
+(* Continuity across gaps of every class: an established session, and the one
+   connection accepted for it, are never given up by the server (no step of
+   the design takes sess[id] or opened[id] back). *)
+SessionPersists ==
+  [][\A id \in Ids : (sess[id] = "est" => sess'[id] = "est") /\ (opened[id] => opened'[id])]_vars
 
 (* C18: the address of an accepted connection is the sanitised client_ip of
    the most recent carrier that presented the ClientID when the session was
